@@ -165,6 +165,24 @@ def with_w(fs):
     return out
 
 
+def cplans(fs):
+    """Coq term (list plan) for a script-level tree (engine JSON form)"""
+    out = []
+    for f in fs:
+        t, n = f["t"], f["n"]
+        if t in ("varint", "fixed64", "fixed32"):
+            out.append("PlScalar %d %d %s" % (n, {"varint": 0, "fixed64": 1, "fixed32": 5}[t], cn(f["v"])))
+        elif t == "bytes":
+            out.append("PlString %d %s" % (n, cbytes(bytes.fromhex(f["v"]))))
+        elif t == "packed64":
+            out.append("PlPacked %d %s" % (n, cnums(f["v"])))
+        elif t == "msg":
+            out.append("PlMessage %d %s" % (n, cplans(f["v"])))
+        else:
+            out.append("PlGroup %d %s" % (n, cplans(f["v"])))
+    return "[" + ";".join(out) + "]"
+
+
 def script_tree_json(fs):
     out = []
     for f in fs:
@@ -627,6 +645,18 @@ def run(ck, binary, run_impl, replay):
                 if so.get("out") != c["_bytes"]:
                     ck.violation("wire:serialize-method" + (":boundary:" + c["_kind"].split(":")[0] if c.get("_kind") else ""), {"part": NAME, "case": strip(c), "impl_out": {k: v for k, v in so.items() if k != "src"},
                                                            "expected": c["_bytes"], "clause": "Protowire::serialize output <> canonical encoding of the tree"})
+            # the model of serialize_method.go's encoder (WireModel.enc_plans) on the same plans
+            plterms, plidx = [], []
+            for j, (c, so) in enumerate(zip(scases, souts[len(pcases):])):
+                if len(c["_bytes"]) > 60000:
+                    continue
+                out = "None" if "out" not in so else "(Some %s)" % cbytes(bytes.fromhex(so["out"]))
+                plterms.append("{| pl_plans := %s; pl_out := %s |}" % (cplans(c["tree"]), out))
+                plidx.append(j)
+            for j, cls in sorted(eval_balanced(ck, "wireser", HEADER, plterms, "check_plans").items()):
+                c = scases[plidx[j]]
+                ck.broken.append("correspondence:C14.wire-serialize")
+                ck.violation("wire:serialize-method:model", {"part": NAME, "case": strip(c), "clause": "model enc_plans <> Protowire::serialize"})
             nscript = len(pcases) + len(scases)
         ck.log("wire: script-level parse / serialize compared")
     ck.cov["wire_script_level_cases"] = nscript
